@@ -56,6 +56,8 @@ pub struct Outcome {
     pub assumptions: Vec<String>,
     pub wall_s: f64,
     pub violations: Vec<Violation>,
+    /// optional: how often each fingerprint was observed before de-duplication (for the KNOWN-FINDING lines)
+    pub occurrences: BTreeMap<String, u64>,
 }
 
 /// Write a replay file and return its path.
@@ -93,7 +95,7 @@ pub fn finish(mut o: Outcome) -> ! {
         }
     }
     for f in &open {
-        let n = known_hits.get(&f.fingerprint).copied().unwrap_or(0);
+        let n = o.occurrences.get(&f.fingerprint).copied().unwrap_or_else(|| known_hits.get(&f.fingerprint).copied().unwrap_or(0));
         println!(
             "KNOWN-FINDING: property={} {} [fingerprint {}; observed {} time(s) in this run]",
             f.property, f.what_fails, f.fingerprint, n
